@@ -174,18 +174,18 @@ def scenario_set(ctx, deep):
     out.append(('postponed_rekey_then_child/pfs', scripted('postponed_rekey_then_child'),
                 {'child_dh': ('15', '14'), 'child_dh_b': ('14',)}, 7))
     # a kernel refusal at each of the first NEWSA requests of either side
-    for name in (['handshake', 'new_child', 'rekey_child'] if not deep else ['handshake', 'new_child', 'rekey_child',
-                                                                             'rekey_child_from_responder', 'rekey_ike']):
+    for name in (['new_child', 'rekey_child'] if not deep else ['handshake', 'new_child', 'rekey_child',
+                                                                'rekey_child_from_responder', 'rekey_ike']):
         for side in 'AB':
-            for k in range(4 if not deep else 6):
+            for k in range(3 if not deep else 6):
                 out.append((f'{name}/kfail{side}{k}', [['kfail_newsa', side, k]] + scripted(name), {}, 0))
     fam = CONF_FAMILY[1:] + EXTRA_CONFS
     pick = ['handshake', 'rekey_child', 'rekey_ike_then_child', 'new_child_from_responder', 'simultaneous_rekey_child',
             'delete_child', 'simultaneous_rekey_ike']
     for ci, conf in enumerate(fam):
-        for name in (pick if deep else pick[:3]):
+        for name in (pick if deep else pick[:2]):
             out.append((f'{name}/fam{ci + 1}', scripted(name), conf, ci + 1))
-    nwalk = 40 if deep else 8
+    nwalk = 40 if deep else 6
     for k in range(nwalk):
         rng = __import__('random').Random(ctx.seed * 1000 + k)
         conf = dict(rng.choice([{}] + fam[:8]))
